@@ -340,8 +340,9 @@ Lemma step_sound p d f u f' st : sem f p d st -> safe_step f u = Some f' ->
   uop_step p d st u <> Panic /\
   forall st', uop_step p d st u = Ok (UCont st') -> sem f' p d st'.
 Proof.
-  intros Hs Hstep. destruct u as [s e|s fld w en acc|s fld e|s fld t e|s fld t|s|a|x e|s|txt];
+  intros Hs Hstep. destruct u as [c u'|s e|s fld w en acc|s fld e|s fld t e|s fld t|s|a|x e|s|txt];
     cbn [safe_step uop_step] in *.
+  - (* UIf: handled by step_sound2 *) discriminate.
   - (* UGuard *)
     inversion Hstep; subst f'; clear Hstep.
     destruct (Z.ltb_spec (Z.of_N (slen (stream_of s p d)))
@@ -407,13 +408,83 @@ Proof.
   - discriminate.
 Qed.
 
-Lemma uops_sound p d us : forall f st, sem f p d st -> safe_uops f us = true -> uops_run p d st us <> Panic.
+(* meaning of an analysis state: the unconditional fact holds, and the conditional one holds when its condition does *)
+Definition sem2 (a : astate) (p d : sbuf) (st : ustate) : Prop :=
+  sem (fst a) p d st /\
+  match snd a with
+  | Some (c, fc) => ucond_holds st c = true -> sem fc p d st
+  | None => True
+  end.
+
+Lemma ucond_eqb_eq a b : ucond_eqb a b = true -> a = b.
+Proof. destruct a, b; cbn [ucond_eqb]; intros H. apply N.eqb_eq in H. now subst. Qed.
+
+Lemma base_of_sem a c p d st : sem2 a p d st -> ucond_holds st c = true -> sem (base_of a c) p d st.
 Proof.
-  induction us as [|u us IH]; intros f st Hs H; cbn [safe_uops uops_run] in *; [discriminate|].
-  destruct (safe_step f u) as [f'|] eqn:E; [|discriminate].
-  destruct (step_sound p d f u f' st Hs E) as [T C].
+  intros [H1 H2] Hc. unfold base_of. destruct (snd a) as [[c' fc]|]; [|exact H1].
+  destruct (ucond_eqb c c') eqn:E; [|exact H1]. apply ucond_eqb_eq in E. subst c'. exact (H2 Hc).
+Qed.
+
+Lemma forget_field_weaken f fld p d st : sem f p d st -> sem (forget_field f fld) p d st.
+Proof.
+  intros H. destruct f as [| |s e]; try exact H. cbn [forget_field].
+  destruct (mentions_field e fld); [exact I|exact H].
+Qed.
+
+Lemma step_sound2 p d a u a' st : sem2 a p d st -> safe_step2 a u = Some a' ->
+  uop_step p d st u <> Panic /\
+  forall st', uop_step p d st u = Ok (UCont st') -> sem2 a' p d st'.
+Proof.
+  intros Hs Hstep.
+  assert (Plain : forall f', safe_step (fst a) u = Some f' -> a' = (f', None) ->
+            uop_step p d st u <> Panic /\ forall st', uop_step p d st u = Ok (UCont st') -> sem2 a' p d st').
+  { intros f' E ->. destruct (step_sound p d (fst a) u f' st (proj1 Hs) E) as [T C].
+    split; [exact T|]. intros st' Est. split; [apply C; exact Est|exact I]. }
+  destruct u as [c u'|s e|s fld w en acc|s fld e|s fld t e|s fld t|s|al|x e|s|txt];
+    try (revert Hstep; cbn [safe_step2];
+         destruct (safe_step (fst a) _) as [f'|] eqn:E; intros Hstep; [|discriminate]; inversion Hstep; subst a';
+         apply (Plain f'); reflexivity).
+  - (* UIf *)
+    revert Hstep. cbn [safe_step2]. destruct (cond_body u') eqn:Cb; [|discriminate].
+    destruct (safe_step (base_of a c) u') as [fc'|] eqn:E; intros Hstep; [|discriminate]. inversion Hstep; subst a'; clear Hstep.
+    cbn [uop_step]. destruct (ucond_holds st c) eqn:Hc.
+    + (* the block is entered *)
+      destruct (step_sound p d (base_of a c) u' fc' st (base_of_sem a c p d st Hs Hc) E) as [T C].
+      split; [exact T|]. intros st' Est. split; cbn [fst snd].
+      * (* what still holds unconditionally *)
+        destruct u' as [c2 u2|s e|s fld w en acc|s fld e|s fld t e|s fld t|s|al|x e|s|txt]; cbn [cond_body] in Cb; try discriminate;
+          cbn [uncond_after]; try exact I.
+        -- (* UGuard: the state is unchanged *)
+           cbn [uop_step] in Est.
+           destruct (Z.ltb _ _) in Est; [discriminate|]. inversion Est; subst st'. exact (proj1 Hs).
+        -- (* UInt *)
+           cbn [uop_step] in Est.
+           destruct (window _ _ _) as [win| |]; cbn [bind] in Est; try discriminate.
+           destruct (match en with LE => go_le_uint w win | BE => go_be_uint w win end) as [n| |]; cbn [bind] in Est; try discriminate.
+           inversion Est; subst st'. apply forget_field_sem. exact (proj1 Hs).
+        -- (* UBytes *)
+           cbn [uop_step] in Est.
+           destruct (window _ _ _) as [win| |]; cbn [bind] in Est; try discriminate.
+           inversion Est; subst st'. apply forget_field_sem. exact (proj1 Hs).
+      * intros _. apply C. exact Est.
+    + (* the block is skipped: the state is unchanged *)
+      split; [discriminate|]. intros st' Est. inversion Est; subst st'. split; cbn [fst snd].
+      * destruct u' as [c2 u2|s e|s fld w en acc|s fld e|s fld t e|s fld t|s|al|x e|s|txt]; cbn [cond_body] in Cb; try discriminate;
+          cbn [uncond_after]; try exact I; try exact (proj1 Hs); apply forget_field_weaken; exact (proj1 Hs).
+      * intros Hc'. congruence.
+  - (* ULet *)
+    revert Hstep. cbn [safe_step2]. destruct (String.eqb x wc_var); [discriminate|].
+    destruct (safe_step (fst a) (ULet x e)) as [f'|] eqn:E; intros Hstep; [|discriminate]. inversion Hstep; subst a'.
+    apply (Plain f'); reflexivity.
+Qed.
+
+Lemma uops_sound p d us : forall a st, sem2 a p d st -> safe_uops a us = true -> uops_run p d st us <> Panic.
+Proof.
+  induction us as [|u us IH]; intros a st Hs H; cbn [safe_uops uops_run] in *; [discriminate|].
+  destruct (safe_step2 a u) as [a'|] eqn:E; [|discriminate].
+  destruct (step_sound2 p d a u a' st Hs E) as [T C].
   destruct (uop_step p d st u) as [[st'|st']| |]; cbn [bind]; [|discriminate|discriminate|congruence].
-  apply (IH f' st'); [apply C; reflexivity|exact H].
+  apply (IH a' st'); [apply C; reflexivity|exact H].
 Qed.
 
 (* ---------------- the two blocks in front of the fields ---------------- *)
@@ -464,7 +535,7 @@ Proof.
     destruct (data_consumed_bound rest dd k ED) as [|Hb]; [contradiction|]. rewrite go_from_ok by exact Hb. eauto. }
   destruct DH as [dh ->]. cbn [bind].
   match goal with |- (let* st := uops_run ?p ?d ?st0 ?us in _) <> _ =>
-    pose proof (uops_sound p d us FZero st0 eq_refl Hsafe) as TU;
+    pose proof (uops_sound p d us (FZero, None) st0 (conj eq_refl I) Hsafe) as TU;
     destruct (uops_run p d st0 us); cbn [bind]; [discriminate|discriminate|congruence]
   end.
 Qed.
